@@ -28,6 +28,10 @@ def tex_line(s, out):
     return "tex|%s|%s|%s|%s" % (cps(s), cps(out), ",".join(map(str, marks)), ";".join(dec))
 
 
+class Unreadable(Exception):
+    """the exported TikZ text does not have the shape the reader knows (e.g. a macro name that is not letters only)"""
+
+
 def tex_doc(texts):
     """a TikZ export (text only, no LaTeX run) of a numeric timeline with these label texts and explicit label sizes; parsed"""
     from labella.timeline import TimelineTex
@@ -35,7 +39,11 @@ def tex_doc(texts):
     from parse_export import parse_tikz
     data = [{"time": float(3 * k + 1), "width": 20 + (k % 3), "text": t} if t is not None else {"time": float(3 * k + 1), "width": 20} for k, t in enumerate(texts)]
     tl = TimelineTex(data, options={"scale": LinearScale(), "direction": "right", "initialHeight": 80 + 30 * len(texts), "showTicks": False})
-    return parse_tikz(tl.export())
+    doc = tl.export()
+    try:
+        return parse_tikz(doc)
+    except Exception as e:
+        raise Unreadable("%s: %s" % (type(e).__name__, e))
 
 
 def short_names(n):
@@ -87,12 +95,14 @@ def run_c19(tier, seed, rep, only_prop=False, scale=1):
     # the same through the DOCUMENT: label texts given to a TikZ timeline must arrive in its \\def\\text.. lines as uni2tex of exactly that text
     for _ in range(common.count(tier, 150, 2500) * scale):
         texts = []
-        for _k in range(rng.randint(1, 8)):
+        for _k in range(rng.randint(1, 8) if rng.random() < 0.9 else rng.choice([27, 53, 60])):
             kk = rng.randint(1, 10)
             t = "".join(rng.choice(rng.choice(POOLS)) for _ in range(kk))
             texts.append("".join(c for c in t if c not in LINEBREAKS) or "x")
         try:
             g = tex_doc(texts)
+        except Unreadable as e:
+            rep.prop_fail.append(("the TikZ document for these label texts cannot be read back — a macro name or a line is not of the prescribed shape, so label texts do not arrive (%s)" % e, {"case": {"kind": "doc", "texts": [[ord(c) for c in t] for t in texts], "index": 0}})); continue
         except Exception as e:
             rep.prop_fail.append(("TikZ export raised %s for these label texts: %s" % (type(e).__name__, e), {"case": {"kind": "doc", "texts": [[ord(c) for c in t] for t in texts], "index": 0}})); continue
         for k, (t, out) in enumerate(zip(texts, g["texts"])):
@@ -141,6 +151,24 @@ def doc_names_c20(rep):
                 rep.prop_fail.append(("C20: the %s colour names of a TikZ document with %d labels are not the prescribed enumeration" % (kind, n), {"case": dict(meta, family="dots")}))
 
 
+def names_sequence(seed):
+    """the way the TeX exporter asks: the names 0 … n-1 once per macro family, i.e. the same ascending run again and again — and scattered
+    requests in between; every answer must be the name of its index, whatever was asked before.  Deterministic in the seed (the replay of one of
+    these answers re-plays the whole sequence up to it)."""
+    from labella.utils import int2name
+    rngn = rng_for(seed, "c20-names")
+    out = []
+    for n in (27, 703, 760, 1400):
+        for fam in range(3):
+            names = [int2name(i) for i in range(n)]
+            if fam:
+                out.append(("names|0|%s" % ";".join(cps(x) for x in names), {"kind": "names-sequence", "start": 0, "count": n, "seq": len(out), "seq_seed": seed}))
+            for _ in range(40):
+                i = rngn.choice([rngn.randrange(0, 30), rngn.randrange(600, 800), rngn.randrange(17000, 19000), rngn.randrange(0, 500000)])
+                out.append(("names|%d|%s" % (i, cps(int2name(i))), {"kind": "names-sequence", "start": i, "count": 1, "seq": len(out), "seq_seed": seed}))
+    return out
+
+
 def run_c20(tier, seed, rep, only_prop=False, scale=1):
     doc_names_c20(rep)
     from labella.utils import int2name, hex2rgb, hex2rgbstr, hex2html
@@ -150,6 +178,8 @@ def run_c20(tier, seed, rep, only_prop=False, scale=1):
     for start in (range(0, N, B - 1) if common.exhaustive_here() else ()):
         names = [int2name(i) for i in range(start, min(start + B, N + 1))]
         lines.append("names|%d|%s" % (start, ";".join(cps(n) for n in names))); metas.append({"kind": "names", "start": start, "count": len(names)})
+    for ln, mt in names_sequence(seed):
+        lines.append(ln); metas.append(mt)
     digs = "0123456789abcdefABCDEF"
     def addc(code):
         try:
@@ -172,7 +202,7 @@ def run_c20(tier, seed, rep, only_prop=False, scale=1):
         rep.case(line, nontrivial=True, sample={"case": meta, "driver": ans} if len(rep.samples) < 2 or (meta["kind"] == "color" and len(rep.samples) < 5) else None)
         rep.count("kind=" + meta["kind"])
         payload = {"case": meta, "driver_line": line[:2000], "driver_answer": ans}
-        if meta["kind"] == "names":
+        if meta["kind"].startswith("names"):
             rep.count("names", int(f["n"]))
             prop = all(f[k] == "ok" for k in ("letters", "readback", "order", "distinct"))
             if f["model"] != "ok":
@@ -195,7 +225,10 @@ def run(pid, tier, seed, replay=None):
             m = json.load(fh)["case"]
         if pid == "C19" and m["kind"] == "doc":
             texts = ["".join(chr(c) for c in t) for t in m["texts"]]
-            out = tex_doc(texts)["texts"][m["index"]]
+            try:
+                out = tex_doc(texts)["texts"][m["index"]]
+            except Exception as e:
+                print("replay: the document cannot be produced / read back:", e); print("VIOLATION property=%s replay=%s" % (pid, replay)); return 1
             if out is None or out.startswith("<unexpected"):
                 print("replay: the label text did not arrive in the document"); print("VIOLATION property=%s replay=%s" % (pid, replay)); return 1
             line = tex_line(texts[m["index"]], out)
@@ -208,6 +241,8 @@ def run(pid, tier, seed, replay=None):
             from labella.tex import uni2tex
             s = "".join(chr(c) for c in m["input_cps"])
             line = tex_line(s, uni2tex(s))
+        elif m["kind"] == "names-sequence":
+            line = names_sequence(m["seq_seed"])[m["seq"]][0]
         elif m["kind"] == "names":
             from labella.utils import int2name
             line = "names|%d|%s" % (m["start"], ";".join(cps(int2name(i)) for i in range(m["start"], m["start"] + m["count"])))
